@@ -223,24 +223,21 @@ impl<T: Clone> WithSpec<T> {
                 // important takes priority over not important.
                 return;
             }
-            // importance is the same.  Next is checking the origin.
-            {
-                use StyleOrigin::*;
-                match (self.origin, origin) {
-                    (Agent, Agent) | (User, User) | (Author, Author) => {
-                        // They're the same so continue the comparison
+            if self.important == important {
+                // importance is the same.  Next is checking the origin.
+                if self.origin != origin {
+                    // For normal declarations the later origin wins; for
+                    // important ones the order is reversed.
+                    if (important && origin > self.origin) || (!important && self.origin > origin) {
+                        return;
                     }
-                    (mine, theirs) => {
-                        if (important && theirs > mine) || (!important && mine > theirs) {
-                            return;
-                        }
-                    }
+                } else if specificity < self.specificity {
+                    // Same origin and importance: higher specificity wins.
+                    return;
                 }
             }
-            // We're now from the same origin an importance
-            if specificity < self.specificity {
-                return;
-            }
+            // Otherwise the new value is important and the old one is not,
+            // so the new one wins.
         }
         self.val = Some(val);
         self.origin = origin;
